@@ -445,8 +445,13 @@ def concat_pool():
                     ('VROOT', '--', (('VP', 'HD', (1, 2)), 3)))
     vp_d = model.MT(1, model.mk_tokens(3, words=['a', 'c', 'b'], pos=['A', 'A', 'B']),
                     ('VROOT', '--', (('VP', 'HD', (1, 3)), 2)))
+    # two rank-4 rules that share parent and first children (shared Markov symbols among their binarizations)
+    rank4_a = model.MT(1, model.mk_tokens(4, words=['a', 'b', 'c', 'd'], pos=['A', 'B', 'C', 'D']),
+                       ('VROOT', '--', (('S', '--', (1, 2, 3, 4)),)))
+    rank4_b = model.MT(1, model.mk_tokens(4, words=['a', 'b', 'c', 'e'], pos=['A', 'B', 'C', 'E']),
+                       ('VROOT', '--', (('S', '--', (1, 2, 3, 4)),)))
     return ([[_mt(sh, 1, i)] for i, sh in enumerate(shs)] + [[_mt(shs[0], 1, 1), _mt(shs[3], 2, 2)], [None], [wide_a], [wide_b],
-             [vp_c], [vp_d]],
+             [vp_c], [vp_d], [rank4_a], [rank4_b]],
             [[_mt(sh, 1, i)] for i, sh in enumerate(cont)] + [[_mt(cont[1], 1, 1), _mt(cont[4], 2, 2)]])
 
 
